@@ -2,6 +2,7 @@ package checks
 
 import (
 	"fmt"
+	"sort"
 	"strings"
 	"time"
 
@@ -95,6 +96,8 @@ type scopeOutcome struct {
 	Class string
 	Src   string
 	Desc  string
+	Extra map[string]string // further files of the program (import harness)
+	Legal bool              // probes only: the expected verdict for the concrete instance
 }
 
 func fillSlots(fill map[int]gosym.Str) gosym.Str {
@@ -299,6 +302,85 @@ func CheckC07(r *Run) int {
 	}, opts)
 	r.Absorb("H_C07_function_rules", st, fmt.Sprintf("%d fixed programs around parameters, function order, fall-off-end and header variables", len(fixed)))
 
+	// Harness E: the import boundary. An imported file defines a function whose name is three symbolic bytes; the main
+	// file calls it through the alias at top level or inside a function: legal iff the name starts with an upper-case letter.
+	var probes []scopeOutcome
+	optsE := opts
+	optsE.OnPath = func(pr *gosym.PathResult) {
+		if pb, ok := pr.Probe.(scopeOutcome); ok && len(probes) < 400 {
+			probes = append(probes, pb)
+		}
+		opts.OnPath(pr)
+	}
+	st = r.Eng.Explore(func(c *gosym.Ctx) interface{} {
+		B := c.B
+		b0 := B.ByteVar("f0", "aAmMzZ_")
+		b1 := B.ByteVar("f1", "aZ_9")
+		b2 := B.ByteVar("f2", "bQ_0")
+		for _, v := range []*sym.Term{b0, b1, b2} {
+			c.S.Declare(v)
+		}
+		n := c.Choose("name-length", 1, 3)
+		name := gosym.Concat([]gosym.Str{gosym.ByteStr(b0), gosym.ByteStr(b1), gosym.ByteStr(b2)}[:n]...)
+		inFunc := c.Fork()
+		lib := gosym.Concat(gosym.Conc("func other() int {\n\treturn 1\n}\nfunc "), name, gosym.Conc("(a int) int {\n\treturn a + other()\n}\nfunc Public() int {\n\treturn 2\n}\n"))
+		use := gosym.Concat(gosym.Conc("l."), name, gosym.Conc("(1)"))
+		var main gosym.Str
+		if inFunc {
+			main = gosym.Concat(gosym.Conc("import l \"lib.tsh\"\nfunc w() int {\n\treturn "), use, gosym.Conc(" + l.Public()\n}\nprint(w())\n"))
+		} else {
+			main = gosym.Concat(gosym.Conc("import l \"lib.tsh\"\nprint("), use, gosym.Conc(", l.Public())\n"))
+		}
+		c.FS.SymHash = "c0ffee" + strings.Repeat("ab", 29)
+		c.FS.AddFile("/work/lib.tsh", lib)
+		upper := B.And(B.Cmp(sym.OpULe, B.BV('A', 8), b0), B.Cmp(sym.OpULe, b0, B.BV('Z', 8)))
+		desc := fmt.Sprintf("imported function with a %d-byte name called through the alias (in function: %v)", n, inFunc)
+		c.ProbeFn = func(m map[string]uint64) interface{} {
+			f0 := byte(m["f0"])
+			return scopeOutcome{Kind: "probe", Src: ModelStr(main, m), Extra: map[string]string{"lib.tsh": ModelStr(lib, m)}, Desc: desc, Legal: f0 >= 'A' && f0 <= 'Z'}
+		}
+		o := run(c, main, upper, desc)
+		if o.Kind == "bad" {
+			_, m := c.Sat()
+			// the witness of run() was produced under the negated assertion; recompute both files from one model
+			res, m2 := c.Sat(B.Not(B.Eq(B.Bool(o.What != "legal program rejected"), upper)))
+			if res == sym.Sat {
+				m = m2
+			}
+			o.Src = ModelStr(main, m)
+			o.Extra = map[string]string{"lib.tsh": ModelStr(lib, m)}
+		}
+		return o
+	}, optsE)
+	r.Absorb("H_C07_import_boundary", st, "an imported file defines a function whose name is 1..3 symbolic bytes (first over \"aAmMzZ_\"); the main file calls it through the alias at top level / inside a function: accepted iff the first byte is an upper-case letter (sha256 of the symbolic file is stubbed by a constant)")
+	// paths of harness E that the engine cannot interpret are decided by one native run each
+	sort.SliceStable(probes, func(i, j int) bool { return probes[i].Src+probes[i].Extra["lib.tsh"] < probes[j].Src+probes[j].Extra["lib.tsh"] })
+	probed := 0
+	for _, pb := range probes {
+		if probed >= 60 {
+			break
+		}
+		probed++
+		files := map[string]string{"main.tsh": pb.Src}
+		for k, v := range pb.Extra {
+			files[k] = v
+		}
+		res, err := nat.RunDrv([]DrvReq{{Op: "transpile", Files: files, Main: "main.tsh", Target: "bash"}}, 30*time.Second)
+		if err != nil {
+			continue
+		}
+		nativeAccepts := !res[0].HasErr && res[0].Panic == ""
+		if nativeAccepts != pb.Legal {
+			pb.Kind = "bad"
+			pb.What = "program with a scope error accepted"
+			if pb.Legal {
+				pb.What = "legal program rejected"
+			}
+			bads = append(bads, pb)
+		}
+	}
+	r.Cov("paths_decided_by_native_probe_only", probed)
+
 	seen := map[string]bool{}
 	validated := 0
 	for _, b := range bads {
@@ -311,7 +393,11 @@ func CheckC07(r *Run) int {
 			continue
 		}
 		seen[b.Class] = true
-		res, err := nat.RunDrv([]DrvReq{{Op: "transpile", Files: map[string]string{"main.tsh": b.Src}, Main: "main.tsh", Target: "bash"}}, 30*time.Second)
+		nfiles := map[string]string{"main.tsh": b.Src}
+		for k, v := range b.Extra {
+			nfiles[k] = v
+		}
+		res, err := nat.RunDrv([]DrvReq{{Op: "transpile", Files: nfiles, Main: "main.tsh", Target: "bash"}}, 30*time.Second)
 		validated++
 		if err == nil {
 			nativeAccepts := !res[0].HasErr && res[0].Panic == ""
@@ -324,7 +410,11 @@ func CheckC07(r *Run) int {
 			r.HitKnown(b.Class, b.Desc)
 			continue
 		}
-		rd := r.WriteReplay(b.Class, map[string]string{"main.tsh": b.Src, "finding.txt": "property C07\n" + b.Desc + "\n" + b.What + "\n"})
+		rfiles := map[string]string{"main.tsh": b.Src, "finding.txt": "property C07\n" + b.Desc + "\n" + b.What + "\n"}
+		for k, v := range b.Extra {
+			rfiles[k] = v
+		}
+		rd := r.WriteReplay(b.Class, rfiles)
 		r.AddViolation(Violation{Class: b.Class, What: fmt.Sprintf("%s: %s; program %q", b.Desc, b.What, b.Src), Replay: rd})
 	}
 	r.Cov("states", total)
